@@ -18,16 +18,18 @@ RULE = ("Engine F: generated factories (RANDOM policies, conveyors whose stores 
         "pre-allocation (different id() values); the canonical trace (time, edge, put/get, item id) and the final node / "
         "edge statistics of all four must be identical. Within every run kernel time and ledger timestamps never "
         "decrease. Non-trivial: the factory uses RANDOM or has >= 2 store operations on different edges in one instant.")
+RULE += (" Two in ten flow-shaped factories also contain rework loops (a machine feeding itself or a machine of an earlier layer through a "
+         "Buffer / Fleet edge with a strictly positive delay / transit time, so no zero-time cycle exists); machine oracles work per visit, not per item.")
 ASSUMPTIONS = ["address / hash-seed dependence is sampled (two hash seeds, one heap perturbation), not enumerated",
                "item ids are unique because node ids are"]
 KEEP_CASES = True
 
-PROFILE = {"conveyors": True, "conveyor_to_sink": True, "pack": 2, "finite": 3,
+PROFILE = {"cycles": 2, "conveyors": True, "conveyor_to_sink": True, "pack": 2, "finite": 3,
            "policies": ["FIRST_AVAILABLE", "ROUND_ROBIN", "RANDOM", "RANDOM", "RANDOM", "const", "callable", "generator"]}
 
 
 def examples(tier):
-    return 1600 if tier == "quick" else 32000
+    return 1600 if tier == "quick" else 48000
 
 
 def strategy(tier):
